@@ -73,7 +73,7 @@ static int globals_main(void) {
           memcpy(w, img, n);
           int f0 = gfaults;
           protect(1);
-          struct cbor_decoder_result r = cbor_stream_decode(w, n, &vh_recording_callbacks, NULL);
+          struct cbor_decoder_result r = cbor_stream_decode(w, n, &vh_recording_callbacks, VH_CTX);
           protect(0);
           (void)r;
           calls++;
@@ -106,7 +106,7 @@ static void one(const unsigned char* img, size_t imglen, size_t n, unsigned char
   for (size_t i = 0; i < n; i++) buf[i] = i < imglen ? img[i] : fill;
   vh_ev_clear();
   va_reset_counters();
-  struct cbor_decoder_result r = cbor_stream_decode(buf, n, &vh_recording_callbacks, NULL);
+  struct cbor_decoder_result r = cbor_stream_decode(buf, n, &vh_recording_callbacks, VH_CTX);
   fprintf(vh_out, "{\"e\":\"sd\"");
   vh_kbytes("buf", buf, n < 10 ? n : 10);
   vh_kint("n", (long long)n);
@@ -114,6 +114,7 @@ static void one(const unsigned char* img, size_t imglen, size_t n, unsigned char
   vh_kint("read", (long long)r.read);
   vh_ku64("req", r.required);
   vh_kint("calls", vh_ev.calls);
+  vh_kbool("ctx", !vh_ev.ctx_bad);
   vh_kstr("slot", vh_ev.slot);
   vh_kbytes("arg", vh_ev.arg, vh_ev.arglen);
   vh_kint("off", vh_ev.data ? (long long)(vh_ev.data - buf) : 0);
